@@ -13,8 +13,15 @@ pub struct Inner {
     pub gets: u64,
     /// ghost: the never-cleaned expiring map (key -> (value, expiry ns))
     pub ghost: std::collections::HashMap<String, (i64, i128)>,
+    /// number of store calls made when the ghost entry of a key was written, and the timestamps of all store calls in order
+    pub ghost_at: std::collections::HashMap<String, usize>,
+    pub nows: Vec<i128>,
     /// the last `get` returned nothing although the ghost map shows a visible value
     pub last_get_stale: bool,
+    /// the last `get` returned nothing for an entry the ghost map shows live, and NO call since its write reached its expiry
+    pub last_get_lost: bool,
+    /// latest timestamp any store call has carried so far: a sweep can only have reclaimed entries that expired by then
+    pub max_now: i128,
     pub stale_events: u64,
 }
 
@@ -26,8 +33,12 @@ impl Store for Rec {
         let mut i = self.0.borrow_mut();
         i.last_ttl = Some(ttl.as_nanos());
         i.writes += 1;
+        i.max_now = i.max_now.max(time_to_ns(now));
+        i.nows.push(time_to_ns(now));
         let r = i.store.compare_and_swap_with_ttl(key, old, new, ttl, now);
         if let Ok(true) = r {
+            let at = i.nows.len();
+            i.ghost_at.insert(key.to_string(), at);
             i.ghost.insert(key.to_string(), (new, time_to_ns(now) + ttl.as_nanos() as i128));
         }
         r
@@ -36,19 +47,30 @@ impl Store for Rec {
         let mut i = self.0.borrow_mut();
         i.gets += 1;
         let r = i.store.get(key, now);
-        let gv = i.ghost.get(key).and_then(|(v, e)| if time_to_ns(now) < *e { Some(*v) } else { None });
-        i.last_get_stale = matches!(r, Ok(None)) && gv.is_some();
+        // stale-forget event (the known-finding class): the table lost an entry that is live at `now` AND some call made AFTER
+        // the entry was written carried a timestamp at or past its expiry (a sweep triggered at that later instant reclaims it
+        // legitimately).  A live entry that is gone although no later call ever reached its expiry is NOT in the class.
+        let gv = i.ghost.get(key).and_then(|(v, e)| if time_to_ns(now) < *e { Some((*v, *e)) } else { None });
+        let since = i.ghost_at.get(key).copied().unwrap_or(0);
+        i.last_get_stale = matches!(r, Ok(None)) && matches!(gv, Some((_, e)) if i.nows[since.min(i.nows.len())..].iter().any(|t| *t >= e));
+        if matches!(r, Ok(None)) && gv.is_some() && !i.last_get_stale { i.last_get_lost = true; }
         if i.last_get_stale {
             i.stale_events += 1;
         }
+        i.nows.push(time_to_ns(now));
+        i.max_now = i.max_now.max(time_to_ns(now));
         r
     }
     fn set_if_not_exists_with_ttl(&mut self, key: &str, value: i64, ttl: Duration, now: SystemTime) -> Result<bool, String> {
         let mut i = self.0.borrow_mut();
         i.last_ttl = Some(ttl.as_nanos());
         i.writes += 1;
+        i.max_now = i.max_now.max(time_to_ns(now));
+        i.nows.push(time_to_ns(now));
         let r = i.store.set_if_not_exists_with_ttl(key, value, ttl, now);
         if let Ok(true) = r {
+            let at = i.nows.len();
+            i.ghost_at.insert(key.to_string(), at);
             i.ghost.insert(key.to_string(), (value, time_to_ns(now) + ttl.as_nanos() as i128));
         }
         r
@@ -108,7 +130,7 @@ impl Req {
 
 impl Lim {
     pub fn new(cfg: &Cfg) -> Lim {
-        let inner = Rc::new(RefCell::new(Inner { store: cfg.build(), last_ttl: None, writes: 0, gets: 0, ghost: Default::default(), last_get_stale: false, stale_events: 0 }));
+        let inner = Rc::new(RefCell::new(Inner { store: cfg.build(), last_ttl: None, writes: 0, gets: 0, ghost: Default::default(), ghost_at: Default::default(), nows: Vec::new(), last_get_stale: false, last_get_lost: false, max_now: i128::MIN, stale_events: 0 }));
         Lim { rl: RateLimiter::new(Rec(inner.clone())), inner, dead: false }
     }
     pub fn call(&mut self, r: &Req) -> Out {
@@ -116,6 +138,7 @@ impl Lim {
         let tm = ns_to_time(r.now);
         self.inner.borrow_mut().last_ttl = None;
         self.inner.borrow_mut().last_get_stale = false;
+        self.inner.borrow_mut().last_get_lost = false;
         let rl = &mut self.rl;
         crate::watchdog::enter(format!("{{\"rate_limit[key_id,max_burst,count,period,quantity,now_ns]\":[{},{},{},{},{},{}],\"store\":{:?}}}", r.key, r.b, r.count, r.period, r.q, r.now, self.inner.borrow().store.kind_name()));
         let res = catch_unwind(AssertUnwindSafe(|| rl.rate_limit(&ks, r.b, r.count, r.period, r.q, tm)));
@@ -147,6 +170,9 @@ impl Lim {
     }
     pub fn writes(&self) -> u64 {
         self.inner.borrow().writes
+    }
+    pub fn last_get_lost(&self) -> bool {
+        self.inner.borrow().last_get_lost
     }
     pub fn last_get_stale(&self) -> bool {
         self.inner.borrow().last_get_stale
